@@ -18,33 +18,42 @@ Arguments Z.max : simpl never.
 
 Definition topvis (oi rows : Z) : Prop := 0 <= oi \/ 0 < oi + rows.
 
-Lemma snap_ok : forall m rows oi sel cf, 1 <= m -> topvis oi rows -> topvis (snap m rows oi sel cf) rows.
+Lemma snap_sr_ok : forall sr m rows oi sel cf, 1 <= m -> (is_below cf = true -> 0 <= sr) ->
+  topvis oi rows -> topvis (snap_sr sr m rows oi sel cf) rows.
 Proof.
-  intros m rows oi sel cf Hm H. unfold topvis, snap in *.
-  destruct (is_above cf && sel && (m - rows <? oi)) eqn:C1;
-    [destruct (oi - (m - rows) <=? m - 1) eqn:C2; [|destruct (oi - 0 <=? m - 1) eqn:C3]|];
-    match goal with |- context [if is_below cf && sel && (?x <? 0) then _ else _] =>
-      destruct (is_below cf && sel && (x <? 0)) eqn:D1;
-      [destruct (0 - x <=? m - 1) eqn:D2; [|destruct (m - rows - x <=? m - 1) eqn:D3]|] end; lia.
+  intros sr m rows oi sel cf Hm Hsr H. unfold topvis, snap_sr in *.
+  destruct cf; cbn [is_above is_below andb] in *;
+    repeat match goal with |- context [if ?c then _ else _] => destruct c eqn:? end; try lia.
+  all: specialize (Hsr eq_refl); lia.
 Qed.
 
-Lemma change_focus_ok : forall s m position oi cf w,
-  1 <= m -> nthz (items s) position = Some w -> topvis oi (i_rows w) ->
-  exists s', change_focus s m position oi cf = Ok s' /\ pend s' = pend s /\ items s' = items s /\
-             focus s' = position /\ ViewOK s'.
+Lemma change_focus_sr_ok : forall s m position oi cf sr w,
+  1 <= m -> (is_below cf = true -> 0 <= sr) -> nthz (items s) position = Some w -> topvis oi (i_rows w) ->
+  exists s', change_focus_sr s m position oi cf sr = Ok s' /\ pend s' = pend s /\ items s' = items s /\
+             focus s' = position /\ ViewOK s' /\ vpend s' = vpend s.
 Proof.
-  intros s m position oi cf w Hm Hw Ht. unfold change_focus. rewrite Hw.
-  pose proof (snap_ok m (i_rows w) oi (i_sel w) cf Hm Ht) as Hs. unfold topvis in Hs.
-  remember (snap m (i_rows w) oi (i_sel w) cf) as oi' eqn:E. clear E.
+  intros s m position oi cf sr w Hm Hsr Hw Ht. unfold change_focus_sr. rewrite Hw.
+  pose proof (snap_sr_ok sr m (i_rows w) oi (i_sel w) cf Hm Hsr Ht) as Hs. unfold topvis in Hs.
+  remember (snap_sr sr m (i_rows w) oi (i_sel w) cf) as oi' eqn:E. clear E.
   destruct (0 <=? oi') eqn:E1.
   - eexists. split; [reflexivity|]. unfold ViewOK. cbn. splits; try reflexivity; lia.
   - destruct (oi' + i_rows w <=? 0) eqn:E2; [lia|].
     eexists. split; [reflexivity|]. unfold ViewOK. cbn. splits; try reflexivity; lia.
 Qed.
 
+Lemma change_focus_ok : forall s m position oi cf w,
+  1 <= m -> nthz (items s) position = Some w -> topvis oi (i_rows w) ->
+  exists s', change_focus s m position oi cf = Ok s' /\ pend s' = pend s /\ items s' = items s /\
+             focus s' = position /\ ViewOK s' /\ vpend s' = vpend s.
+Proof.
+  intros s m position oi cf w Hm Hw Ht. unfold change_focus.
+  apply change_focus_sr_ok with (w := w); try assumption. intros _. lia.
+Qed.
+
 Lemma shift_focus_ok : forall s m oi,
   (0 <= oi < m \/ (oi < 0 /\ 0 < oi + rows_at (items s) (focus s))) ->
-  exists s', shift_focus s m oi = Ok s' /\ pend s' = pend s /\ items s' = items s /\ focus s' = focus s /\ ViewOK s'.
+  exists s', shift_focus s m oi = Ok s' /\ pend s' = pend s /\ items s' = items s /\ focus s' = focus s /\
+             ViewOK s' /\ vpend s' = vpend s.
 Proof.
   intros s m oi H. unfold shift_focus.
   destruct (0 <=? oi) eqn:E1.
@@ -89,9 +98,10 @@ Qed.
 Lemma first_selectable_ok : forall s m ff,
   ViewOK s -> heights_ok (items s) -> 1 <= m ->
   (forall w, nthz (items s) (focus s) = Some w -> cursor_ok w) ->
-  exists s', set_focus_first_selectable s m ff = Ok s' /\ pend s' = PNone /\ items s' = items s /\ ViewOK s'.
+  exists s', set_focus_first_selectable s m ff = Ok s' /\ pend s' = PNone /\ items s' = items s /\ ViewOK s' /\
+             vpend s' = None.
 Proof.
-  intros s m ff [Ho Hnd] Hh Hm Hc. unfold set_focus_first_selectable. cbn [items focus off inum iden set_pend].
+  intros s m ff [Ho Hnd] Hh Hm Hc. unfold set_focus_first_selectable, clear_pending. cbn [items focus off inum iden set_pend set_vpend].
   destruct (nthz (items s) (focus s)) as [w|] eqn:Hw.
   2: { unfold visible. rewrite Hw. eexists. split; [reflexivity|]. unfold ViewOK. cbn. splits; try reflexivity; lia. }
   destruct (visible_ok (items s) (focus s) (off s) (inum s) (iden s) m ff w) as (v & Ev & HV & Hna & Hnb & Hh0);
@@ -121,7 +131,7 @@ Proof.
   2: { eexists. split; [reflexivity|]. unfold ViewOK. cbn. splits; try reflexivity; lia. }
   destruct (first_sel_scan_bound _ _ _ _ _ Es Hfb1) as [Hb1 Hb2].
   destruct Hfb2 as [Hfb2|Hfb2]; [rewrite Hfb2 in Es; discriminate|].
-  destruct (shift_focus_ok (set_body_focus (set_pend s PNone) pos) m nro ltac:(left; lia)) as (s' & Es' & Hp' & Hi' & Hf' & Hv').
+  destruct (shift_focus_ok (set_body_focus (set_vpend (set_pend s PNone) None) pos) m nro ltac:(left; lia)) as (s' & Es' & Hp' & Hi' & Hf' & Hv' & Hvp').
   exists s'. splits; try assumption.
 Qed.
 
@@ -176,25 +186,47 @@ Proof.
   intros Hin Hw. destruct (number_In _ _ _ _ Hin) as (w' & Hw' & ->). replace (p - 0) with p in Hw' by lia. congruence.
 Qed.
 
-Lemma set_focus_complete_ok : forall s m ff,
-  ViewOK s -> heights_ok (items s) -> 1 <= m ->
-  (forall w, In w (items s) -> cursor_ok w) ->
-  exists s', set_focus_complete s m ff = Ok s' /\ pend s' = PNone /\ items s' = items s /\ ViewOK s'.
+Lemma top_filler_nonneg m va h : 0 <= top_filler m va h.
 Proof.
-  intros s m ff Hv Hh Hm Hc. unfold set_focus_complete.
+  unfold top_filler.
+  match goal with |- context [let '(top, bottom) := ?c in _] => destruct c as [top bottom] end. lia.
+Qed.
+
+Lemma valign_complete_ok : forall s m ff va,
+  ViewOK s -> 1 <= m ->
+  exists s', set_focus_valign_complete s m ff va = Ok s' /\ pend s' = PNone /\ items s' = items s /\ ViewOK s' /\
+             vpend s' = None.
+Proof.
+  intros s m ff va [Ho Hnd] Hm. unfold set_focus_valign_complete, clear_pending.
+  cbn [items focus set_pend set_vpend].
+  destruct (nthz (items s) (focus s)) as [w|].
+  - pose proof (top_filler_nonneg m va (i_rows w)).
+    destruct (shift_focus_ok (set_vpend (set_pend s PNone) None) m (Z.min (top_filler m va (i_rows w)) (m - 1)) ltac:(left; lia))
+      as (s' & Es' & Hp' & Hi' & Hf' & Hv' & Hvp').
+    exists s'. splits; assumption.
+  - eexists. split; [reflexivity|]. unfold ViewOK. cbn. splits; try reflexivity; lia.
+Qed.
+
+Lemma pending_complete_ok : forall s m ff,
+  ViewOK s -> heights_ok (items s) -> 1 <= m ->
+  (forall w, In w (items s) -> cursor_ok w) -> vpend s = None -> pend s <> PFirst ->
+  exists s', set_focus_pending_complete s m ff = Ok s' /\ pend s' = PNone /\ items s' = items s /\ ViewOK s' /\
+             vpend s' = None.
+Proof.
+  intros s m ff Hv Hh Hm Hc Hvp0 Hnf. unfold set_focus_pending_complete.
   destruct (pend s) as [| |cf old] eqn:Epend.
   - exists s. splits; auto.
-  - apply first_selectable_ok; try assumption. intros w Hw. apply Hc. now apply nthz_In in Hw.
+  - congruence.
   - destruct Hv as [Ho Hnd].
     cbn [items focus off inum iden set_pend set_body_focus].
     destruct (nthz (items s) (focus s)) as [neww|] eqn:Hnew.
     2: { (* the walker is empty: nothing to do *)
-         eexists. split; [reflexivity|]. unfold ViewOK. cbn. splits; try reflexivity; lia. }
+         eexists. split; [reflexivity|]. unfold ViewOK. cbn. splits; try reflexivity; try assumption; lia. }
     destruct (old =? focus s) eqn:Eold.
-    { eexists. split; [reflexivity|]. unfold ViewOK. cbn. splits; try reflexivity; lia. }
+    { eexists. split; [reflexivity|]. unfold ViewOK. cbn. splits; try reflexivity; try assumption; lia. }
     destruct (nthz (items s) old) as [oldw|] eqn:Hold.
     2: { (* the old position was removed meanwhile: the current offset is kept *)
-         eexists. split; [reflexivity|]. unfold ViewOK. cbn. splits; try reflexivity; lia. }
+         eexists. split; [reflexivity|]. unfold ViewOK. cbn. splits; try reflexivity; try assumption; lia. }
     destruct (visible_ok (items s) old (off s) (inum s) (iden s) m ff oldw) as (v & Ev & HV & Hna & Hnb & Hh0);
       [constructor; assumption | assumption | apply Hc; now apply nthz_In in Hold |].
     rewrite Ev.
@@ -230,8 +262,8 @@ Proof.
           rewrite Efa2 in Hlast. specialize (Hlast ltac:(now rewrite <- app_assoc)).
           rewrite (tot_app post' [z]) in *. cbn [tot] in *. apply nonneg_app in Hnpost. destruct Hnpost as [Hnp' _].
           pose proof (tot_nonneg _ Hnp'). lia. }
-      destruct (change_focus_ok s2 m (focus s) offset CBelow neww Hm Hnew Htv) as (s' & Es' & Hp' & Hi' & Hf' & Hv').
-      exists s'. splits; assumption.
+      destruct (change_focus_ok s2 m (focus s) offset CBelow neww Hm Hnew Htv) as (s' & Es' & Hp' & Hi' & Hf' & Hv' & Hvp').
+      exists s'. splits; try assumption; rewrite Hvp'; cbn; assumption.
     + destruct (find_below (v_below v) (v_off_inset v + v_frows v) (focus s)) as [offset|] eqn:Efb.
       * destruct (find_below_spec _ _ _ _ Efb) as (pre & x & post & Efb2 & Hx & Hoffs).
         assert (Hnpre : nonneg pre).
@@ -239,30 +271,44 @@ Proof.
           rewrite Efb2 in Hnfb. now apply nonneg_app in Hnfb. }
         pose proof (tot_nonneg _ Hnpre).
         assert (Htv : topvis offset (i_rows neww)) by (unfold topvis; left; rewrite Efr in Hoffs; lia).
-        destruct (change_focus_ok s2 m (focus s) offset CAbove neww Hm Hnew Htv) as (s' & Es' & Hp' & Hi' & Hf' & Hv').
-        exists s'. splits; assumption.
+        destruct (change_focus_ok s2 m (focus s) offset CAbove neww Hm Hnew Htv) as (s' & Es' & Hp' & Hi' & Hf' & Hv' & Hvp').
+        exists s'. splits; try assumption; rewrite Hvp'; cbn; assumption.
       * (* not visible: place it by coming_from *)
         set (s3 := set_body_focus s2 (focus s)).
         assert (Hra : rows_at (items s3) (focus s3) = i_rows neww) by (unfold rows_at; cbn; now rewrite Hnew).
         assert (Hr0 : 0 <= i_rows neww).
         { apply nthz_In in Hnew. unfold heights_ok in Hh. rewrite Forall_forall in Hh. now apply Hh. }
         match goal with |- context [shift_focus s3 m ?o] =>
-          destruct (shift_focus_ok s3 m o) as (s' & Es' & Hp' & Hi' & Hf' & Hv') end.
+          destruct (shift_focus_ok s3 m o) as (s' & Es' & Hp' & Hi' & Hf' & Hv' & Hvp') end.
         { rewrite Hra. destruct cf.
           - pose proof (Z.div_mod (m - i_rows neww) 2 ltac:(lia)). pose proof (Z.mod_pos_bound (m - i_rows neww) 2 ltac:(lia)).
             remember ((m - i_rows neww) / 2) as q. lia.
           - lia.
           - lia. }
-        exists s'. splits; assumption.
+        exists s'. splits; try assumption; rewrite Hvp'; cbn; assumption.
+Qed.
+
+Lemma set_focus_complete_ok : forall s m ff,
+  ViewOK s -> heights_ok (items s) -> 1 <= m ->
+  (forall w, In w (items s) -> cursor_ok w) ->
+  exists s', set_focus_complete s m ff = Ok s' /\ pend s' = PNone /\ items s' = items s /\ ViewOK s' /\
+             vpend s' = None.
+Proof.
+  intros s m ff Hv Hh Hm Hc. unfold set_focus_complete.
+  assert (Hfirst : forall w, nthz (items s) (focus s) = Some w -> cursor_ok w)
+    by (intros w Hw; apply Hc; now apply nthz_In in Hw).
+  destruct (pend s) as [| |cf old] eqn:Epend; try (now apply first_selectable_ok);
+    (destruct (vpend s) as [va|] eqn:Evp;
+     [now apply valign_complete_ok | apply pending_complete_ok; try assumption; rewrite Epend; discriminate]).
 Qed.
 
 (* ------------------------------------------------------------------------------------- *)
 (* render with a pending request = complete it, then render the resulting state *)
 Lemma render_via_complete s m ff s' :
-  set_focus_complete s m ff = Ok s' -> pend s' = PNone -> render s m ff = render s' m ff.
+  set_focus_complete s m ff = Ok s' -> pend s' = PNone -> vpend s' = None -> render s m ff = render s' m ff.
 Proof.
-  intros H Hp. unfold render, calculate_visible. rewrite H.
-  unfold set_focus_complete at 1. rewrite Hp. reflexivity.
+  intros H Hp Hvp. unfold render, calculate_visible. rewrite H.
+  unfold set_focus_complete at 1. unfold set_focus_pending_complete. rewrite Hp, Hvp. reflexivity.
 Qed.
 
 Definition WidgetsOK (its : list item) : Prop := heights_ok its /\ forall w, In w its -> cursor_ok w.
@@ -287,11 +333,11 @@ Lemma render_ok_lemma : forall s m ff,
   ViewOK s -> WidgetsOK (items s) -> 1 <= m ->
   exists s' win cur,
     render s m ff = Ok (s', (win, cur)) /\
-    pend s' = PNone /\ items s' = items s /\ ViewOK s' /\ ShowsWindow s' m ff win cur.
+    pend s' = PNone /\ items s' = items s /\ ViewOK s' /\ ShowsWindow s' m ff win cur /\ vpend s' = None.
 Proof.
   intros s m ff Hv [Hh Hc] Hm.
-  destruct (set_focus_complete_ok s m ff Hv Hh Hm Hc) as (s' & Ec & Hp' & Hi' & Hv').
-  rewrite (render_via_complete _ _ _ _ Ec Hp'), (render_no_pending _ _ _ Hp').
+  destruct (set_focus_complete_ok s m ff Hv Hh Hm Hc) as (s' & Ec & Hp' & Hi' & Hv' & Hvp').
+  rewrite (render_via_complete _ _ _ _ Ec Hp' Hvp'), (render_no_pending _ _ _ Hp' Hvp').
   destruct (nthz (items s') (focus s')) as [w|] eqn:Hw.
   - destruct Hv' as [Ho' Hnd'].
     destruct (view_ok_lemma (items s') (focus s') (off s') (inum s') (iden s') m ff w)
@@ -314,7 +360,8 @@ Lemma render_any_history_lemma :
     WidgetsOK (items s') -> 1 <= maxrow ->
     exists s'' win cur,
       render s' maxrow fflag = Ok (s'', (win, cur)) /\
-      pend s'' = PNone /\ items s'' = items s' /\ ViewOK s'' /\ ShowsWindow s'' maxrow fflag win cur.
+      pend s'' = PNone /\ items s'' = items s' /\ ViewOK s'' /\ ShowsWindow s'' maxrow fflag win cur /\
+      vpend s'' = None.
 Proof.
   intros ops s s' out maxrow fflag Hs Hops Hin Hw Hm.
   apply render_ok_lemma; try assumption. eapply history_view_ok; eassumption.
